@@ -24,13 +24,14 @@ struct Rule {
     sel: String,
     decls: Vec<(String, String, bool)>,
 }
-pub const REWRITES: [&str; 37] = [
+pub const REWRITES: [&str; 41] = [
     "base", "minified", "pretty-printed", "comments at token boundaries", "final semicolon dropped", "final semicolon doubled", "unknown property first", "unknown property last",
     "upper-case property names", "upper-case hex digits", "@media block before", "@import before", "unparsable rule set q{{}} before", "unparsable rule set !!!{..} before",
     "@media block between rules", "unparsable rule set between rules", "@media block after", "unsupported pseudo-class rule before", "unsupported pseudo-class rule between",
     "inner semicolon doubled", "unparsable rule set after", "bare @ after", "garbage after", "whitespace before semicolons", "comment before semicolons", "CRLF and tabs", "leading semicolon in blocks", "unknown at-rule statement between rules",
     "final semicolon doubled with a space between", "final semicolon doubled with a newline between", "final semicolon doubled with a comment between", "inner semicolons doubled with whitespace between", "two leading semicolons with a space between",
     "unknown at-rule with several nested rule sets before", "unknown at-rule with several nested rule sets between", "unparsable rule set with nested blocks before", "@media with several nested rule sets after",
+    "comment glued to the end of each selector part (before white space)", "comment glued to the start of each selector part (after white space)", "no white space around > and , in selectors", "tabs and newlines inside selectors",
 ];
 fn render_sheet(rules: &[Rule], v: usize) -> String {
     let mut s = String::new();
@@ -70,7 +71,14 @@ fn render_sheet(rules: &[Rule], v: usize) -> String {
             25 => ("\t", "\r\n"),
             _ => (" ", ""),
         };
-        s += &format!("{c}{}{c}{sp}{{{nl}", r.sel);
+        let sel = match v {
+            37 => r.sel.replace(' ', "/*c*/ "),
+            38 => r.sel.replace(' ', " /*c*/"),
+            39 => r.sel.replace(" > ", ">").replace(", ", ","),
+            40 => r.sel.replace(' ', " \t\n "),
+            _ => r.sel.clone(),
+        };
+        s += &format!("{c}{}{c}{sp}{{{nl}", sel);
         if v == 26 {
             s += ";";
         }
@@ -130,7 +138,7 @@ fn render_sheet(rules: &[Rule], v: usize) -> String {
     s
 }
 fn singles() -> Vec<Rule> {
-    let sels = ["p", ".a", "p.a", "div p", "#i", "div > p", "p, span"];
+    let sels = ["p", ".a", "p.a", "div p", "#i", "div > p", "p, span", "p.a span", ".a > span, #i"];
     let decls = [("color", "#0a0b0c"), ("background-color", "#0d0e0f"), ("display", "none"), ("color", "red"), ("color", "rgb(1,2,3)")];
     let mut v = vec![];
     for s in sels {
